@@ -232,6 +232,7 @@ DIRECTED = [
     ('deep-attribute-chain', 'x = a' + '.b' * 300 + '\n'),
     ('none-subscript', 'v: None[int] = 1\n'),
     ('function-attribute-type', 'x: len.y = 1\n'),
+    ('unpack-list', 'def bad() -> int:\n\ta, b = [1, 2]\n\treturn a\n'),
     ('actual-without-name', '@__actual__()\ndef f() -> None: ...\n'),
     ('self-import', 'from {self} import a\n'),
     ('dotted-type-undefined-owner', 'x: foo.Bar = 1\n'),
